@@ -215,6 +215,26 @@ theorem vmax_exact (xs : List (Option Rat)) : vmax xs = Spec.vmax xs := by
   funext acc x
   cases acc <;> simp [extStep, maxWith_eq]
 
+/-- **the minimum is a lower bound, the maximum an upper bound, and `vmin ≤ vmax`**: both are
+non-null elements of the series, every non-null element lies between them -/
+theorem vmin_le_vmax (xs : List (Option Rat)) (a b : Rat) (ha : vmin xs = some a)
+    (hb : vmax xs = some b) :
+    some a ∈ xs ∧ some b ∈ xs ∧ (∀ x, some x ∈ xs → a ≤ x ∧ x ≤ b) ∧ a ≤ b := by
+  rw [vmin_exact] at ha
+  rw [vmax_exact] at hb
+  unfold Spec.vmin Spec.least at ha
+  unfold Spec.vmax Spec.greatest at hb
+  have ha1 := List.mem_of_find?_eq_some ha
+  have hb1 := List.mem_of_find?_eq_some hb
+  have ha2 := List.find?_some ha
+  have hb2 := List.find?_some hb
+  simp only [List.all_eq_true, decide_eq_true_eq] at ha2 hb2
+  have hv : ∀ x : Rat, x ∈ valid xs ↔ some x ∈ xs := by
+    intro x; simp [valid]
+  refine ⟨(hv a).1 ha1, (hv b).1 hb1, ?_, ha2 b hb1⟩
+  intro x hx
+  exact ⟨ha2 x ((hv x).2 hx), hb2 x ((hv x).2 hx)⟩
+
 /-- `vargmin` is the position (nulls counted) of the FIRST occurrence of the least non-null
 element. -/
 theorem vargmin_exact (xs : List (Option Rat)) : vargmin xs = Spec.vargmin xs := by
